@@ -255,3 +255,4 @@ def run(ctx) -> None:
     state_prefix(ctx)
     persistence(ctx)
     once_only(ctx)
+    shared.argname_scope(ctx, ('forml.flow._code', 'forml.io.asset._access'), floor=2)
